@@ -464,6 +464,23 @@ pub fn judge_files(spec: &Spec, cfg: &Cfg, h: &HirSpec, files: &Tree) -> Vec<Fin
             out.push(f("C06", "synth_name_collision", format!("{} operations, {} examples on disk", h.operations.len(), n_ex)));
         }
     }
+    // ---------------- C01: a complete crate, counted from the DOCUMENT (not from the extracted table)
+    for must in ["src/lib.rs", "src/model/mod.rs", "src/request/mod.rs"] {
+        if !files.contains_key(must) {
+            out.push(f("C01", "", format!("{} was not written", must)));
+        }
+    }
+    let n_ops_doc: usize = spec.paths.iter().map(|p| p.ops.len()).sum();
+    if n_req != n_ops_doc {
+        out.push(f("C01", "synth_name_collision", format!("the document has {} operations, {} request modules on disk", n_ops_doc, n_req)));
+    }
+    let n_ex = files.keys().filter(|p| p.starts_with("examples/")).count();
+    if cfg.examples && n_ex != n_ops_doc {
+        out.push(f("C01", "synth_name_collision", format!("examples enabled: the document has {} operations, {} examples on disk", n_ops_doc, n_ex)));
+    }
+    if !cfg.examples && n_ex != 0 {
+        out.push(f("C01", "", format!("examples disabled but {} example files were written", n_ex)));
+    }
     // ---------------- lib.rs: server and authentication
     if let Some(lib) = files.get("src/lib.rs") {
         let text = String::from_utf8_lossy(lib).replace([' ', '\n'], "");
